@@ -42,6 +42,7 @@ def run(ctx):
                 for k in (9, 7):       # the owner completes all (or all but the last two) of its remaining operations at once, after the worker has taken j steps
                     acases.append((prog, '>0' * 5 + '1b' * j + '>0' * k + '1b' * 3 + '>0>0', ('1', '8', 'o', '0', '0', '1')))
         X.run_cases(ctx, 'lazy resize by the work-queue thread, destroy of the emptied table', impl, acases, nontrivial=lambda raw: ' free tb' in raw)
+        X.run_cases(ctx, 'automatic resize at the maximum bucket count (order / chunk / mmap allocators)', impl, X.auto_resize_bound_cases(ctx), nontrivial=nontrivial)
         X.run_cases(ctx, 'resize (chunk / mmap allocators, unbounded max)', impl, X.gen(ctx, PROGS, n // 2, 'C09x', OCONFS), nontrivial=nontrivial)
     return finish(ctx, trusted=TRUSTED, rule='parking sweeps (every thread frozen at each step, incl. the resizer between size store, synchronize, unlink and free; updaters between reading size and '
                   'their cmpxchg), double parking (resizer stopped inside a shrink while a reader enters and obtains bucket pointers) + bursty schedules; tables of initial size 1-8, max 4/8/unbounded, with the '
